@@ -1415,31 +1415,66 @@ func init() {
 	register(&propSpec{
 		ID: "C14",
 		Build: func(tier string, seed int) []Unit {
-			hists := []string{"timed", "conc2", "timed,conc2", "quick", "timed,timed", "timed,idle-long,timed", "idle-short,timed", "timed,stop,timed", "quick,idle-long,quick", "stop,timed", "timed,idle-long,quick"}
+			// (1) concrete timeout, no sleep jitter: the symbolic quantities are the instants at which the matcher
+			// polls its deadline (one per timed event); the clock goroutine's own loop is then concrete, so long
+			// histories and the 1 ms period (a thousand ticks per idle second) stay cheap
+			hists := []string{"timed", "conc2", "timed,conc2", "quick", "timed,timed", "timed,idle-long,timed", "timed,idle-verylong,timed", "idle-short,timed", "timed,stop,timed",
+				"quick,idle-long,quick", "stop,timed", "timed,idle-long,quick", "timed,stop,idle-verylong,timed", "quick,idle-verylong,timed"}
 			if tier == "thorough" {
-				hists = append(hists, "timed,timed,timed", "timed,idle-long,timed,idle-long,quick", "quick,stop,quick,timed", "timed,idle-short,timed,stop")
+				hists = append(hists, "timed,timed,timed", "timed,idle-long,timed,idle-long,quick", "quick,stop,quick,timed", "timed,idle-short,timed,stop", "timed,idle-verylong,timed,idle-verylong,timed")
 			}
 			var us []Unit
 			for hi, h := range hists {
-				for ci, cfg := range []struct{ period, ddom, waitdom string }{
-					{"100000000", "150000000-250000000", "0-600000000"},
-					{"1000000", "5000000-8000000", "0-16000000"},
+				for ci, cfg := range []struct {
+					period, ddom string
+					p, k         int64
+				}{
+					{"100000000", "200000000", 100000000, 6},
+					{"100000000", "230000001", 100000000, 7},
+					{"1000000", "5000000", 1000000, 10},
+					{"1000000", "7300001", 1000000, 12},
 				} {
+					// polling instants: around every tick of the clock up to past the latest allowed firing time
+					var ws, ws0 []string
+					for k := int64(0); k <= cfg.k; k++ {
+						ws = append(ws, itoa(int(k*cfg.p)), itoa(int(k*cfg.p+1)), itoa(int(k*cfg.p+cfg.p/2)), itoa(int((k+1)*cfg.p-1)))
+						if k%3 == 0 {
+							ws0 = append(ws0, itoa(int(k*cfg.p+cfg.p/2)))
+						}
+					}
+					lastTimed := -1
+					for ei, ev := range strings.Split(h, ",") {
+						if ev == "timed" {
+							lastTimed = ei
+						}
+					}
+					if ci%2 == 1 && tier != "thorough" && hi%3 != 0 {
+						continue // the second (odd) timeout value: every third history in the quick tier
+					}
 					pre := "0"
 					if hi == 0 && ci == 0 || hi == 1 || tier == "thorough" && hi < 5 {
 						pre = "1" // pre-emptions of the main goroutine at its synchronisation operations
 					}
-					jit, ddom := "1000000", cfg.ddom
 					if strings.Contains(h, "conc2") {
-						if ci == 1 {
+						if ci >= 2 {
 							continue // the concurrent event runs 1.5 s of virtual time: only with the 100 ms period
 						}
-						// concrete timeout and no jitter: the schedule of the two deadline makers is what is explored here
-						jit, ddom, pre = "0", "200000000", "2"
+						pre = "2" // the schedule of the two deadline makers is what is explored here
 					}
-					us = append(us, Unit{ID: fmt.Sprintf("C14/%s/p%s/pre%s", h, cfg.period, pre), Harness: "clock", PathBudget: 40000, StepBudget: 30_000_000,
-						Params: map[string]string{"pattern": "clock", "history": h, "period_ns": cfg.period, "jitter_ns": jit, "ddom": ddom, "waitdom": cfg.waitdom, "preempt": pre, "key_extra": h + "/" + cfg.period, "interp_replay": "1"}})
+					us = append(us, Unit{ID: fmt.Sprintf("C14/%s/p%s/d%s/pre%s", h, cfg.period, cfg.ddom, pre), Harness: "clock", PathBudget: 40000, StepBudget: 60_000_000,
+						Params: map[string]string{"pattern": "clock", "history": h, "period_ns": cfg.period, "jitter_ns": "0", "ddom": cfg.ddom, "waitdom": strings.Join(ws, ","), "waitdom_first": strings.Join(ws0, ","),
+							"last_timed": itoa(lastTimed), "waitconcrete": "1", "preempt": pre, "key_extra": h + "/" + cfg.period + "/" + cfg.ddom, "interp_replay": "1"}})
 				}
+			}
+			// (2) the timeout itself a solver variable and every sleep late by a symbolic jitter of up to 1 ms:
+			// short histories only (each tick adds a 64-bit variable to every later instant)
+			for _, h := range []string{"timed", "quick", "stop,timed", "idle-short,timed"} {
+				pre := "0"
+				if h == "timed" {
+					pre = "1"
+				}
+				us = append(us, Unit{ID: fmt.Sprintf("C14/%s/p100000000/dsym/pre%s", h, pre), Harness: "clock", PathBudget: 40000, StepBudget: 30_000_000,
+					Params: map[string]string{"pattern": "clock", "history": h, "period_ns": "100000000", "jitter_ns": "1000000", "ddom": "150000000-250000000", "waitdom": "0-600000000", "preempt": pre, "key_extra": h + "/dsym", "interp_replay": "1"}})
 			}
 			return us
 		},
